@@ -8,7 +8,7 @@ HERE = os.path.dirname(os.path.dirname(os.path.abspath(__file__)))
 CLAIMED = {
  "C01": ("model_checking",
          "bounded-exhaustive enumeration of writer programs on the real writer/reader (stateless choice-point DFS, subprocess workers)",
-         "Every writer program of the stated finite spaces (all 255 aligned section residues x prototypes x point counts; all API programs to depth 3/4 over a 30-op alphabet; point counts around 1x/2x/3x the natural packet capacity; hooked packet capacity 1..9 x every catalogue type incl. widths 0..64) is executed on the real E57Writer and read back with the real raw reader; the oracle is the harness's own record of the values handed in, compared bit-for-bit. Exhaustive within the stated catalogues and bounds.",
+         "Every writer program of the stated finite spaces (all 255 aligned section residues x prototypes x point counts; all API programs to depth 3/4 over a 30-op alphabet and depth 4/5 over a 12-op sub-alphabet; counts crossing 255 / 65535 (clouds, points, packets, records per prototype); point counts around 1x/2x/3x the natural packet capacity; hooked packet capacity 1..9 x every catalogue type incl. widths 0..64) is executed on the real E57Writer and read back with the real raw reader; the oracle is the harness's own record of the values handed in, compared bit-for-bit. Exhaustive within the stated catalogues and bounds.",
          "values are drawn from finite catalogues (boundaries, walking bits, float specials); programs are bounded in depth; rustc/std and the in-memory device are trusted",
          "DESIGN.md §5 C01"),
  "C02": ("model_checking",
@@ -23,7 +23,7 @@ CLAIMED = {
          "DESIGN.md §5 C03"),
  "C04": ("model_checking",
          "bounded-exhaustive enumeration of metadata programs (presence lattice with deviation bound, full string and float catalogues) on the real writer/reader",
-         "Presence lattice of 34 optional fields within <=2/3 toggles of all-absent and all-present x 5 image kinds x 3 finalize modes; every string of length <=3 over 12 XML-critical characters plus long ones in every string field; every float of the mini-float lattice plus specials in every float field; everything set must read back exactly; xml() equals the transformer output and the bytes stored in the file.",
+         "Presence lattice of 34 optional fields within <=3/4 toggles of all-absent and all-present x 5 image kinds x 3 finalize modes; every string of length <=3 over 12 XML-critical characters plus long ones in every string field; every float of the mini-float lattice plus specials in every float field; everything set must read back exactly; xml() equals the transformer output and the bytes stored in the file.",
          "carriage return excluded from strings; partial limit overrides not judged",
          "DESIGN.md §5 C04"),
  "C05": ("model_checking",
@@ -38,7 +38,7 @@ CLAIMED = {
          "DESIGN.md §5 C06"),
  "C07": ("model_checking",
          "exhaustive single-bit (all files/pages/bytes) and two-bit flips through the real reader, bounded-exhaustive read histories on damaged files, measured CRC syndrome table for the 3-bit and burst clauses, cross-build comparison of both CRC backends",
-         "F1: every single-bit flip of every byte of 4 small files against the whole operation list forwards and backwards; F2: all depth-3/4 read histories on files with one damaged page; F3: all 1-bit and 2-bit flips (quick: within 64-bit windows, thorough: all 33.5 M pairs) and a menu of checksum mis-encodings through the real page reader; F4: all triples and all bursts <=32 bits decided on the syndrome table measured with the crate's CRC (affinity verified on every executed pair); F6: identical per-case observations with and without the crc32c feature.",
+         "F1: every single-bit flip of every byte of 5 small files against the whole operation list forwards and backwards; F2: all depth-3/4 read histories on files with one damaged page; F3: all 1-bit and 2-bit flips (quick: within 64-bit windows, thorough: all 33.5 M pairs) and a menu of checksum mis-encodings through the real page reader; F4: all triples and all bursts <=32 bits decided on the syndrome table measured with the crate's CRC (affinity verified on every executed pair); F6: identical per-case observations with and without the crc32c feature.",
          "3-bit/burst clauses rely on CRC affinity verified on executed pairs; burst positions in the CRC's own bit order; known finding: bursts straddling payload end and the big-endian checksum (format property)",
          "DESIGN.md §5 C07"),
  "C08": ("model_checking",
@@ -48,12 +48,12 @@ CLAIMED = {
          "DESIGN.md §5 C08"),
  "C09": ("model_checking",
          "the C08 enumeration with a counting global allocator and counting device: per-call budgets on allocated bytes, device reads, items yielded, plus a per-case watchdog and a live-byte cap",
-         "Every call (open, each next(), each blob) of every mutant is metered: bytes allocated and peak live bytes <= 4096*L + 64 MiB, device bytes requested <= 4*L + 64 KiB (validate_crc 2*L), iterators yield <= recordCount items, each case finishes within the watchdog; a worker exceeding 2 GiB live bytes exits with a distinguished status and the case is reported.",
+         "Every call (open, each next(), each blob) of every mutant is metered: bytes allocated and peak live bytes <= 128*L + 8 MiB (open / XML), 64*L + 192 MiB (iterator step), L + 1 MiB (blob), wall time < 10 s per call, device bytes requested <= 4*L + 64 KiB (validate_crc 2*L), iterators yield <= recordCount items, each case finishes within the watchdog; a worker exceeding 2 GiB live bytes exits with a distinguished status and the case is reported.",
          "budgets are loose constants; the watchdog is a timeout, not a termination proof",
          "DESIGN.md §5 C09"),
  "C10": ("model_checking",
          "bounded-exhaustive enumeration of prototypes, unstorable values and API call orders on the real writer under catch_unwind, judged by a reference predicate of the documented rules",
-         "Every prototype of length <=2 over 25 names x 14 types, every valid base plus <=2 extra records, every single-record mutation of the catalogue prototypes, 9 kinds of unstorable value at every position of a 9-point cloud, and every sequence of <=3/4 API sessions (incl. abandoned writers, double finalize, failing XML transformer) are executed; no call may panic, listed unstorable inputs must be rejected without side effects, and whenever finalize reports success the file must read back exactly.",
+         "Every prototype of length <=2 over 25 names x 16 types, every valid base plus <=2 extra records, every single-record mutation of the catalogue prototypes, 9 kinds of unstorable value at every position of a 9-point cloud, and every sequence of <=4/5 API sessions (incl. abandoned writers, double finalize, failing XML transformer) are executed; no call may panic, listed unstorable inputs must be rejected without side effects, and whenever finalize reports success the file must read back exactly.",
          "rejection is demanded only for the classes the statement lists; duplicates and other undocumented shapes are judged by no-panic and read-back only",
          "DESIGN.md §5 C10"),
  "C11": ("model_checking",
@@ -67,7 +67,7 @@ CLAIMED = {
          "values inside the declared range; only same-width streams are driven through the buffers",
          "DESIGN.md §5 C12"),
  "C13": ("model_checking",
-         "full product of 22 attribute types x 18 limit shapes x 4 attributes, each case holding every stored value of the range (or boundaries + mini-float lattice), read by the real simple iterator",
+         "full product of 22 attribute types x 18 limit shapes x 4 attributes x 3 settings of the neighbouring channel's limits, each case holding every stored value of the range (or boundaries + mini-float lattice), read by the real simple iterator",
          "For every (type, limits, attribute) the whole stored-value list is read with normalisation on and off: every delivered value must be in [0,1] and not NaN, non-decreasing in the stored value, equal to clamp((v-lo)/(hi-lo)) within 2.4e-7 for the range the statement designates, 0 for degenerate ranges; with normalisation off the stored value as f32.",
          "ambiguous limit shapes accept any of the candidate ranges; non-range limits (NaN, lo>hi) only the invariants",
          "DESIGN.md §5 C13"),
@@ -83,13 +83,13 @@ CLAIMED = {
          "DESIGN.md §5 C16"),
  "C17": ("model_checking",
          "bounded-exhaustive read histories (depth 3/4) on intact and damaged files, one-shot device fault at every device operation followed by every operation, and fixpoint BFS over the reader's page-cache states",
-         "Every history over the read alphabet on 6 file variants, every (warm-up, faulted op, fault position, following op) combination with full and half-sized device reads, and a BFS that evaluates every operation in every reachable page-cache state (fixpoint reached); oracle: memoised result on a freshly opened reader.",
+         "Every history over the read alphabet on 8 file variants, every (warm-up, faulted op, fault position, following op) combination with full and half-sized device reads, and a BFS that evaluates every operation in every reachable page-cache state (fixpoint reached); oracle: memoised result on a freshly opened reader.",
          "alphabet of ~20 ops per file; one fault per history",
          "DESIGN.md §5 C17"),
  "C18": ("model_checking",
          "full product of insertion positions x local names x foreign element shapes (and foreign attributes) spliced into real and independently encoded documents; real reader report vs report on the unmodified document",
          "6 base documents x every child position of every container element outside prototypes x 88 local names (every name the reader looks up) x 4 shapes, foreign attributes before and after the standard attributes of every element, and extension attributes named like standard ones / odd accepted names at every prototype position: the reader's report about standard content (root fields, descriptors, points, blobs) must not change and extension attributes must come back with prefix and name.",
-         "inserted content is truly foreign (prefixed, namespace declared on the inserted element); known finding: accepted extension names starting with a digit or dash",
+         "inserted content is truly foreign (prefixed, namespace declared on the inserted element); extension names starting with a digit or dash were a genuine defect, repaired (fix #28)",
          "DESIGN.md §5 C18"),
  "C19": ("model_checking",
          "bounded-exhaustive corpus (layout-deviation files, all depth-2/3 program outputs, metadata-rich files, bundled files) x differential oracle through the real reader/writer; cross-process determinism by executing a stage twice",
@@ -112,11 +112,25 @@ ALL = ["C%02d" % i for i in range(1, 21)]
 
 def main():
     hook_commits = subprocess.run(["git", "-C", "/repo", "log", "--format=%H", "--grep=verification hooks"], capture_output=True, text=True).stdout.split()
+    # the registry is the authoritative list of spaces: its stage descriptions are appended
+    import re
+    listing = subprocess.run([os.path.join(HERE, "check"), "list"], capture_output=True, text=True).stdout
+    stages, cur = {}, None
+    for l in listing.splitlines():
+        m = re.match(r"^(C\d\d) \[", l)
+        if m:
+            cur = m.group(1); stages[cur] = []; continue
+        m = re.match(r"^\s+(c\d\d\.\S+)\s+bound q=(\d+) t=(\d+) tiers=(\d)\s+(.*)$", l)
+        if m and cur:
+            tier = {"3": "", "2": " [thorough only]", "1": " [quick only]"}[m.group(4)]
+            stages[cur].append(f"{m.group(1)}{tier}: {m.group(5)}")
     checks = []
     for pid in ALL:
         if pid not in CLAIMED:
             continue
         cat, tech, text, note, ref = CLAIMED[pid]
+        if stages.get(pid):
+            text = text + " Spaces enumerated (registry): " + " | ".join(stages[pid])
         checks.append({
             "property_id": pid,
             "quick_cmd": f"./check {pid} quick",
